@@ -126,6 +126,12 @@ def validate_cases(v, obs_path, cfg, timeout=900):
     return rows, tr
 
 
+class NotWellFormed(vlib.MachineryError):
+    """the recorded connection log is not a sequence the effects of HttpConn can be applied to (an ordering of the
+    target's callbacks the driver does not expect, e.g. after a shot that timed out on an overloaded machine): decides
+    nothing about the code; the recording is repeated before it counts as a failure of the machinery"""
+
+
 def validate_conn(v, path, timeout=600):
     rows = vlib.read_ndjson(path)
     tr = vlib.tlc("TraceHttpConn", "TraceHttpConn.cfg", env={"VERIF_TRACE": path}, workers=1, timeout=timeout, heap="2g")
@@ -146,7 +152,9 @@ def validate_conn(v, path, timeout=600):
                     replay_obj={"kind": "conn", "invariant": tr.what, "events": evs}, replay_name="conn_run%d_%s.json" % (run, tr.what))
         return rows, runs, tr
     if tr.distinct != len(rows) + 1:
-        raise vlib.MachineryError("TraceHttpConn consumed %d of %d lines (log not well-formed)\n%s" % (tr.distinct - 1, len(rows), tr.out[-2000:]))
+        at = rows[tr.distinct - 1] if 0 < tr.distinct <= len(rows) else None
+        raise NotWellFormed("TraceHttpConn consumed %d of %d lines (log not well-formed); first line without a step: %s\n%s" % (
+            tr.distinct - 1, len(rows), json.dumps(at)[:600], tr.out[-2000:]))
     return rows, runs, tr
 
 
@@ -181,8 +189,14 @@ def run(tier, v):
 
     def conn_part(b_):
         # M1 (connection reuse): needs only the harness, so it runs next to everything else
-        vlib.run_driver(b_, ["httpwire", "-mode", "conn", "-out", conn, "-n", "4", "-r", "12" if thorough else "5"], timeout=900)
-        return validate_conn(v, conn)
+        for attempt in (1, 2, 3):
+            vlib.run_driver(b_, ["httpwire", "-mode", "conn", "-out", conn, "-n", "4", "-r", "12" if thorough else "5"], timeout=900)
+            try:
+                return validate_conn(v, conn)
+            except NotWellFormed as e:
+                vlib.log("connection log of attempt %d not well-formed: %s" % (attempt, str(e).splitlines()[0][:700]))
+                if attempt == 3:
+                    raise
 
     with concurrent.futures.ThreadPoolExecutor(max_workers=7) as ex:
         fgen = ex.submit(vlib.tlc, "HttpWireGen", "HttpWire_gen%s.cfg" % sfx, env={"VERIF_OUT": cases}, workers=1, heap="6g",
